@@ -56,16 +56,16 @@ Proof. exact (block_restores qk cfg st blk q). Qed.
 (** pint as it is: get_base_units is not restored (F7) *)
 Theorem C12_exit_restores_base_refuted :
   ∃ cfg st blk q,
-    balanced blk ∧ run_ok (QK false true false false) cfg st blk = true ∧ run_ok faithful cfg st blk = true ∧
-    answer_of (QK false true false false) cfg (run (QK false true false false) cfg st blk).2 q
-      ≠ answer_of (QK false true false false) cfg st.2 q ∧
+    balanced blk ∧ run_ok (QK false true false false false) cfg st blk = true ∧ run_ok faithful cfg st blk = true ∧
+    answer_of (QK false true false false false) cfg (run (QK false true false false false) cfg st blk).2 q
+      ≠ answer_of (QK false true false false false) cfg st.2 q ∧
     answer_of faithful cfg (run faithful cfg st blk).2 q ≠ answer_of faithful cfg st.2 q.
 Proof. exact exit_restores_base_refuted. Qed.
 
 (** pint as it is: a unit defined inside an overlay is lost when an inner block is left (F110) *)
 Theorem C12_exit_restores_refuted :
   ∃ cfg st0 ops blk q,
-    let qk := QK false false false true in
+    let qk := QK false false false true false in
     balanced blk ∧ run_ok qk cfg (run qk cfg st0 ops) blk = true ∧ run_ok faithful cfg (run faithful cfg st0 ops) blk = true ∧
     answer_of qk cfg (run qk cfg (run qk cfg st0 ops) blk).2 q ≠ answer_of qk cfg (run qk cfg st0 ops).2 q ∧
     answer_of faithful cfg (run faithful cfg (run faithful cfg st0 ops) blk).2 q
